@@ -59,8 +59,9 @@ Proof.
   destruct s as [t|ex sp|]; cbn [eval_segs_m eval_segs].
   - rewrite IH. destruct (eval_segs e l) as [o|x]; cbn; [ rewrite ?app_nil_r | ]; reflexivity.
   - rewrite mlookup_lift. destruct (lookup e ex) as [v|]; [ | reflexivity ].
-    rewrite mbind_mret_l, IH. unfold spec_of.
-    destruct (eval_segs e l) as [o|x]; cbn; reflexivity.
+    rewrite mbind_mret_l. unfold spec_of.
+    destruct (spec_supported v match sp with Some f => f | None => [] end); [ | reflexivity ].
+    rewrite IH. destruct (eval_segs e l) as [o|x]; cbn; reflexivity.
   - exact IH.
 Qed.
 
@@ -224,13 +225,14 @@ Qed.
 Theorem interp_nested_frame_l e t1 ex t2 side v :
   plain_text t1 -> no_backslash t1 -> plain_text t2 -> no_braces ex ->
   mlookup e (fst (split_colon ex)) = inl (side, Some v) ->
+  spec_supported v (spec_of (snd (split_colon ex))) = true ->
   eval_quoted_m e (t1 ++ "{" :: ex ++ "}" :: t2) =
   inl (side, Some (t1 ++ format_value v (spec_of (snd (split_colon ex))) ++ t2)).
 Proof.
-  intros H1 Hb H2 He Hl. unfold eval_quoted_m.
+  intros H1 Hb H2 He Hl Hsup. unfold eval_quoted_m.
   destruct (split_one_expr t1 ex t2 H1 Hb H2 He) as [Hf Hs]. rewrite Hf, Hs.
   rewrite eval_text_seg. unfold mk_expr. destruct (split_colon ex) as [a o]. cbn [fst snd] in *.
-  cbn [eval_segs_m]. rewrite Hl.
+  cbn [eval_segs_m]. rewrite Hl. cbn [mbind]. rewrite Hsup.
   assert (Et : eval_segs_m e (text_seg t2) = mret t2).
   { destruct t2; [ reflexivity | ]. cbn [text_seg eval_segs_m]. rewrite mbind_mret_l, app_nil_r. reflexivity. }
   rewrite Et. cbn. rewrite !app_nil_r. reflexivity.
@@ -254,7 +256,8 @@ Definition seg_ok (e : menv) (s : segment) (o : bytes * bytes) : Prop :=
   match s with
   | SText t => o = ([], t)
   | SDollar => o = ([], [])
-  | SExpr ex sp => exists v, mlookup e ex = inl (fst o, Some v) /\ snd o = format_value v (spec_of sp)
+  | SExpr ex sp => exists v, mlookup e ex = inl (fst o, Some v) /\ spec_supported v (spec_of sp) = true /\
+                             snd o = format_value v (spec_of sp)
   end.
 
 Theorem eval_segs_m_ok_l e l outs : Forall2 (seg_ok e) l outs ->
@@ -263,8 +266,8 @@ Proof.
   induction 1 as [|s o l outs Hs _ IH]; [ reflexivity | ].
   destruct s as [t|ex sp|]; cbn [seg_ok] in Hs; cbn [eval_segs_m map List.concat].
   - subst o. rewrite IH. cbn. rewrite app_nil_r. reflexivity.
-  - destruct Hs as (v & Hl & Hv). destruct o as [sd val]. cbn [fst snd] in *. subst val.
-    rewrite Hl, IH. cbn. rewrite app_nil_r. reflexivity.
+  - destruct Hs as (v & Hl & Hsup & Hv). destruct o as [sd val]. cbn [fst snd] in *. subst val.
+    rewrite Hl. cbn [mbind]. rewrite Hsup, IH. cbn. rewrite app_nil_r. reflexivity.
   - subst o. rewrite IH. reflexivity.
 Qed.
 
@@ -276,8 +279,8 @@ Proof.
   - cbn [app eval_segs_m map List.concat]. rewrite Hl. reflexivity.
   - destruct s as [t|ex' sp'|]; cbn [seg_ok] in Hs; cbn [app eval_segs_m map List.concat].
     + subst o. rewrite IH. reflexivity.
-    + destruct Hs as (v & Hl' & Hv). destruct o as [sd val]. cbn [fst snd] in *.
-      rewrite Hl', IH. cbn. rewrite app_assoc. reflexivity.
+    + destruct Hs as (v & Hl' & Hsup & Hv). destruct o as [sd val]. cbn [fst snd] in *.
+      rewrite Hl'. cbn [mbind]. rewrite Hsup, IH. cbn. rewrite app_assoc. reflexivity.
     + subst o. rewrite IH. reflexivity.
 Qed.
 
@@ -285,9 +288,9 @@ Qed.
 Definition arg_ok (e : menv) (a : xarg) (o : bytes) : Prop := print_argument_m e a = inl (o, Some tt).
 
 (* a call prints what it writes while running, then the text of its value *)
-Theorem print_call_l e n side v : mlookup e n = inl (side, Some v) ->
+Theorem print_call_l e n side v : mlookup e n = inl (side, Some v) -> is_flt v = false ->
   print_argument_m e (XRef n) = inl (side ++ value_bytes v, Some tt).
-Proof. intros H. unfold print_argument_m, print_value_m. cbn [eval_arg_m]. rewrite H. reflexivity. Qed.
+Proof. intros H Hf. unfold print_argument_m, print_value_m. cbn [eval_arg_m]. rewrite H. cbn [mbind]. rewrite Hf. reflexivity. Qed.
 
 Theorem print_interpolated_l e s side b : has_interpolation s = true ->
   eval_quoted_m e s = inl (side, Some b) ->
@@ -354,17 +357,17 @@ Qed.
 
 (* collect_formatted_arguments: all arguments are evaluated, in order, before the format is rendered *)
 Lemma collect_m_ok e post outs :
-  Forall2 (fun a o => eval_arg_m e a = inl (fst o, Some (snd o))) post outs ->
+  Forall2 (fun a o => eval_arg_m e a = inl (fst o, Some (snd o)) /\ is_flt (snd o) = false) post outs ->
   collect_m e post = inl (List.concat (map fst outs), Some (map (fun o => farg_of (snd o)) outs)).
 Proof.
-  induction 1 as [|a o post outs Ha _ IH]; [ reflexivity | ].
-  cbn [collect_m map List.concat]. rewrite Ha, IH. cbn. rewrite app_nil_r. reflexivity.
+  induction 1 as [|a o post outs [Ha Hf] _ IH]; [ reflexivity | ].
+  cbn [collect_m map List.concat]. rewrite Ha. cbn [mbind]. rewrite Hf, IH. cbn. rewrite app_nil_r. reflexivity.
 Qed.
 
 Theorem println_m_format_path_l e nl pre f post vs outs out :
   find_fmt_x (pre ++ XQuoted f :: post) = Some (pre, f, post) -> 2 <= List.length (pre ++ XQuoted f :: post) ->
   Forall2 (arg_ok e) pre vs ->
-  Forall2 (fun a o => eval_arg_m e a = inl (fst o, Some (snd o))) post outs ->
+  Forall2 (fun a o => eval_arg_m e a = inl (fst o, Some (snd o)) /\ is_flt (snd o) = false) post outs ->
   render f (map (fun o => farg_of (snd o)) outs) = Some out ->
   stmt_m e (XPrint nl (pre ++ XQuoted f :: post)) =
   inl (List.concat (map (fun v => v ++ [" "]) vs) ++ List.concat (map fst outs) ++ cstr out
@@ -464,6 +467,7 @@ Proof.
         rewrite app_nil_r, <- !app_assoc. reflexivity.
       * rewrite Hc. cbn [fst mlookup beq hole ceq]. rewrite (IHv s Hi).
         change (beq hole hole) with true. reflexivity.
+      * reflexivity.
     + intros Hi. cbn [tower]. rewrite run_wrap_one.
       rewrite (interp_nested_error_l _ (fst w) hole (snd w) side H1 Hb H2 Hh); [ reflexivity | ].
       rewrite Hc. cbn [fst mlookup]. change (beq hole hole) with true. cbv iota. exact (IHe Hi).
